@@ -112,8 +112,8 @@ META = dict(
     ],
     bounds=dict(
         quick="limit {None,0,1,2,7} x offset {None,0,1,3,7}; forms int/bind/expr in all pairs, litexec/litcol paired with int; "
-        "14 shapes x rows 0..6 on SQLite; 8 dialect variants on 6- and 3-row worlds; fetch(ties,percent) grammar level; ORM 6 kinds",
-        thorough="all 5x5 form pairs; slice(a,b) for a,b<=7; 9 dialect variants on all worlds; fetch with every form",
+        "14 shapes x rows 0..6 on SQLite; 8 dialect variants on 6- and 3-row worlds; fetch(ties,percent) grammar level on 4 shapes x 7 variants; slice(a,b); ORM 8 kinds",
+        thorough="all 5x5 form pairs; slice(a,b) for all a<=b<=7; 8 dialect variants executed on all 7 worlds; fetch with every form",
     ),
 )
 
